@@ -322,22 +322,41 @@ func BlockTokens(b *block.Block, rcs tx.Receipts) string {
 		}
 		fmt.Fprintf(&sb, " %s %x %x %x %s %s %s %d", N32(t.ID()), t.ChainTag(), t.BlockRef().Number(), t.Expiration(), dep,
 			hx.HexN(origin[:]), hx.B(rc.Reverted), len(rc.Outputs))
-		for _, o := range rc.Outputs {
-			fmt.Fprintf(&sb, " %d", len(o.Events))
-			for _, e := range o.Events {
-				fmt.Fprintf(&sb, " %s %d", hx.HexN(e.Address[:]), len(e.Topics))
-				for _, tp := range e.Topics {
-					sb.WriteString(" " + N32(tp))
-				}
-				fmt.Fprintf(&sb, " %x %s", len(e.Data), hx.HexN(e.Data))
+		sb.WriteString(OutTokens(rc))
+	}
+	return sb.String()
+}
+
+// OutTokens renders the outputs of a receipt in the oracle's OUT* syntax (leading space included).
+func OutTokens(rc *tx.Receipt) string {
+	var sb strings.Builder
+	for _, o := range rc.Outputs {
+		fmt.Fprintf(&sb, " %d", len(o.Events))
+		for _, e := range o.Events {
+			fmt.Fprintf(&sb, " %s %d", hx.HexN(e.Address[:]), len(e.Topics))
+			for _, tp := range e.Topics {
+				sb.WriteString(" " + N32(tp))
 			}
-			fmt.Fprintf(&sb, " %d", len(o.Transfers))
-			for _, t := range o.Transfers {
-				fmt.Fprintf(&sb, " %s %s %s", hx.HexN(t.Sender[:]), hx.HexN(t.Recipient[:]), hx.HexN(t.Amount.Bytes()))
-			}
+			fmt.Fprintf(&sb, " %x %s", len(e.Data), hx.HexN(e.Data))
+		}
+		fmt.Fprintf(&sb, " %d", len(o.Transfers))
+		for _, t := range o.Transfers {
+			fmt.Fprintf(&sb, " %s %s %s", hx.HexN(t.Sender[:]), hx.HexN(t.Recipient[:]), hx.HexN(t.Amount.Bytes()))
 		}
 	}
 	return sb.String()
+}
+
+// GenesisReceipt builds the one receipt (no tx) whose logs initChainRepository writes for the genesis block.
+func GenesisReceipt(r *hx.Rand) *tx.Receipt {
+	in := &Incl{Outs: genOuts(r)}
+	if len(in.Outs) == 0 {
+		in.Outs = []OutSpec{{Events: []EvSpec{{Addr: 1, Topics: []string{"0"}, Data: "01"}}, Transfers: []TrSpec{{From: 0, To: 1, Amount: "5"}}}}
+	}
+	if len(in.Outs) > 1 {
+		in.Outs = in.Outs[:1] // the node writes a single output
+	}
+	return buildReceipt(in)
 }
 
 func AddLine(b *block.Block, rcs tx.Receipts, conf uint32, best bool) string {
